@@ -26,8 +26,7 @@ func updNotif(n *corebgp.Notification) *refmodel.Notif {
 
 // updAbstract maps an error tree (errors.Join / %w wrapping) to the abstract
 // tree. The embedded fallback notification of a treat-as-withdraw or
-// attribute-discard error is an attribute of that node, not a child: these
-// types have no Unwrap method.
+// attribute-discard error is an attribute of that node, not a child.
 func updAbstract(err error) *refmodel.ErrNode {
 	if err == nil {
 		return nil
@@ -42,6 +41,13 @@ func updAbstract(err error) *refmodel.ErrNode {
 		n.Kind, n.Notif = refmodel.ErrDiscard, updNotif(x.Notification)
 	case corebgp.UpdateError:
 		n.Kind, n.Notif = refmodel.ErrCustom, updNotif(x.AsSessionReset())
+	}
+	switch n.Kind {
+	case refmodel.ErrReset, refmodel.ErrWithdraw, refmodel.ErrDiscard:
+		// the library's three error classes are leaves of the tree the property talks about: the fallback
+		// notification inside a treat-as-withdraw / attribute-discard error is an attribute of the node
+		// whether or not the type also offers it through an Unwrap method
+		return n
 	}
 	switch x := err.(type) {
 	case interface{ Unwrap() error }:
@@ -508,7 +514,8 @@ func c17Trees(maxNodes int) [][]string {
 func c17JudgeTree(shape string) (aspect, msg string) {
 	err, abs := c17Build(shape)
 	if !sameTree(updAbstract(err), abs) {
-		panic("C17 engine: adapter updAbstract disagrees with the constructed tree " + shape)
+		// never on the tree the adapter was written for: the library's error types changed their shape
+		return "notification-from-err:tree-shape", fmt.Sprintf("the error tree %s built from the library's own error types unwraps to a different tree than the one constructed (an error class changed what it wraps or which class it reports)", shape)
 	}
 	got, pan := notifFromErr(err)
 	want := refmodel.SeverityWalk(abs)
